@@ -268,5 +268,12 @@ nesting:
 magic-numbers:
   allowed_numbers: [0, 1, 4200]
 """
+# every linter section carries an `ignore` list that matches file 4 of a project (flat and one-directory-per-file layout)
+_SECTIONS = ["nesting", "srp", "magic-numbers", "print-statements", "method-property", "stateless-class", "lbyl",
+             "collection-pipeline", "performance", "cqs", "file-header", "lazy-ignores", "stringly-typed",
+             "unwrap-abuse", "clone-abuse", "blocking-async"]
+IGNORES_CONFIG = "dry:\n  enabled: true\n  min_duplicate_lines: 3\n  ignore: [\"f04_*\", \"m04/\"]\n" + "".join(
+    f"{sec}:\n  ignore: [\"f04_*\", \"m04/\"]\n" for sec in _SECTIONS)
 CONFIGS = {"base": BASE_CONFIG, "overrides": OVERRIDES_CONFIG}
-EXPLICIT = {"empty.yaml": "# nothing configured\n", "empty.json": "{}\n", "alt.yaml": ALT_CONFIG}
+EXPLICIT = {"empty.yaml": "# nothing configured\n", "empty.json": "{}\n", "alt.yaml": ALT_CONFIG,
+            "ignores.yaml": IGNORES_CONFIG}
